@@ -32,6 +32,7 @@ type SetClockFn = unsafe extern "C" fn(i64, i64, i64);
 type CounterFn = unsafe extern "C" fn(i32) -> i64;
 type ClockOffFn = unsafe extern "C" fn();
 type RealNsFn = unsafe extern "C" fn() -> i64;
+type ClockMonoFn = unsafe extern "C" fn(i32);
 
 extern "C" {
     fn dlsym(handle: *mut std::ffi::c_void, symbol: *const std::ffi::c_char) -> *mut std::ffi::c_void;
@@ -43,6 +44,7 @@ pub struct ShimCtl {
     counter: CounterFn,
     clock_off: ClockOffFn,
     real_ns: RealNsFn,
+    clock_mono: ClockMonoFn,
 }
 
 fn shim_ctl() -> Option<ShimCtl> {
@@ -52,10 +54,16 @@ fn shim_ctl() -> Option<ShimCtl> {
         let c = dlsym(std::ptr::null_mut(), c"pdlsim_counter".as_ptr());
         let d = dlsym(std::ptr::null_mut(), c"pdlsim_clock_off".as_ptr());
         let e = dlsym(std::ptr::null_mut(), c"pdlsim_real_ns".as_ptr());
-        if a.is_null() || b.is_null() || c.is_null() || d.is_null() || e.is_null() {
+        let f = dlsym(std::ptr::null_mut(), c"pdlsim_clock_mono".as_ptr());
+        if a.is_null() || b.is_null() || c.is_null() || d.is_null() || e.is_null() || f.is_null() {
             return None;
         }
-        Some(ShimCtl { reseed: std::mem::transmute(a), set_clock: std::mem::transmute(b), counter: std::mem::transmute(c), clock_off: std::mem::transmute(d), real_ns: std::mem::transmute(e) })
+        // the baton scheduler needs real timeouts to notice a thread blocked on a lock of the
+        // code under test: only the wall clock (CLOCK_REALTIME) is simulated in this tier
+        let mono: ClockMonoFn = std::mem::transmute(f);
+        mono(0);
+        Some(ShimCtl {
+            clock_mono: mono, reseed: std::mem::transmute(a), set_clock: std::mem::transmute(b), counter: std::mem::transmute(c), clock_off: std::mem::transmute(d), real_ns: std::mem::transmute(e) })
     }
 }
 
@@ -291,8 +299,12 @@ enum Cmd {
 }
 
 enum Event {
-    Done { job: usize, step: usize, outcome: Outcome },
-    Yielded(&'static str),
+    Done { thread: usize, job: usize, step: usize, outcome: Outcome },
+    Yielded { thread: usize, site: &'static str },
+}
+
+thread_local! {
+    static MY_INDEX: std::cell::Cell<usize> = const { std::cell::Cell::new(0) };
 }
 
 thread_local! {
@@ -304,7 +316,7 @@ thread_local! {
 fn yield_hook(site: &'static str) {
     BATON.with(|b| {
         if let Some((tx, rx)) = b.borrow().as_ref() {
-            if tx.send(Event::Yielded(site)).is_ok() {
+            if tx.send(Event::Yielded { thread: MY_INDEX.with(|m| m.get()), site }).is_ok() {
                 // wait until the scheduler hands the baton back
                 loop {
                     match rx.recv() {
@@ -338,6 +350,11 @@ pub struct RunPlan {
 }
 
 pub struct RunTrace {
+    /// a thread stayed silent for BLOCK_TIMEOUT while holding the baton: it is blocked on a lock
+    /// of the code under test held by a parked thread (the schedule is then no longer exact)
+    pub blocked_seen: u64,
+    /// nobody could make progress any more
+    pub deadlock: bool,
     pub outcomes: Vec<Vec<Outcome>>, // [job][step]
     pub schedule: Vec<SchedEntry>,
     pub yield_switches: u64,
@@ -348,6 +365,7 @@ pub struct RunTrace {
 fn thread_main(my: usize, jobs: Vec<LJob>, preload: usize, scratch: PathBuf, tx: Sender<Event>, rx: Receiver<Cmd>) {
     // the baton lives in a thread-local so that H1 yield points inside pdl-compiler can reach it
     BATON.with(|b| *b.borrow_mut() = Some((tx.clone(), rx)));
+    MY_INDEX.with(|m| m.set(my));
     let mut dbs: BTreeMap<usize, ast::SourceDatabase> = BTreeMap::new();
     let mut states: BTreeMap<usize, JobState> = BTreeMap::new();
     for (i, j) in jobs.iter().enumerate() {
@@ -370,7 +388,7 @@ fn thread_main(my: usize, jobs: Vec<LJob>, preload: usize, scratch: PathBuf, tx:
                 let st = states.get_mut(&job).expect("job state");
                 let db = dbs.get_mut(&j.db_group).expect("db");
                 let outcome = exec_step(j, &j.steps[step], st, db, &scratch);
-                if tx.send(Event::Done { job, step, outcome }).is_err() {
+                if tx.send(Event::Done { thread: my, job, step, outcome }).is_err() {
                     break;
                 }
             }
@@ -425,6 +443,7 @@ pub fn run_plan(plan: &RunPlan, rng: &mut Rng, ctl: Option<&ShimCtl>, scratch: &
     enum TState {
         Idle,
         Yielded,
+        Busy,
     }
     let mut tstate = vec![TState::Idle; n];
     let mut schedule: Vec<SchedEntry> = Vec::new();
@@ -432,80 +451,141 @@ pub fn run_plan(plan: &RunPlan, rng: &mut Rng, ctl: Option<&ShimCtl>, scratch: &
     let mut yield_switches = 0u64;
     let mut yields_seen = 0u64;
     let mut panics = 0u64;
+    let mut blocked_seen = 0u64;
+    let mut deadlock = false;
     let mut last_thread: Option<usize> = None;
+    let mut running: Option<usize> = None; // the thread that holds the baton
+    let mut blocked: BTreeSet<usize> = BTreeSet::new();
     let mut guard = 0u64;
+    const BLOCK_TIMEOUT: std::time::Duration = std::time::Duration::from_secs(15);
     loop {
         guard += 1;
-        if guard > 200_000 {
+        if guard > 400_000 {
             break;
         }
-        // runnable choices
-        let mut choices: Vec<SchedEntry> = Vec::new();
-        for t in 0..n {
-            match tstate[t] {
-                TState::Yielded => choices.push(SchedEntry { thread: t, start: None }),
-                TState::Idle => {
-                    for (ji, j) in plan.jobs.iter().enumerate() {
-                        if j.thread == t && next_step[ji] < j.steps.len() {
-                            choices.push(SchedEntry { thread: t, start: Some((ji, next_step[ji])) });
+        if running.is_none() {
+            // runnable choices
+            let mut choices: Vec<SchedEntry> = Vec::new();
+            for t in 0..n {
+                match tstate[t] {
+                    TState::Busy => {}
+                    TState::Yielded => choices.push(SchedEntry { thread: t, start: None }),
+                    TState::Idle => {
+                        for (ji, j) in plan.jobs.iter().enumerate() {
+                            if j.thread == t && next_step[ji] < j.steps.len() {
+                                choices.push(SchedEntry { thread: t, start: Some((ji, next_step[ji])) });
+                            }
                         }
                     }
                 }
             }
-        }
-        if choices.is_empty() {
-            break;
-        }
-        let pick = match &plan.schedule {
-            Some(s) => {
-                // follow the recorded schedule as long as it is applicable, then fall back to first choice
-                let mut chosen = None;
-                while replay_pos < s.len() && chosen.is_none() {
-                    let want = &s[replay_pos];
-                    replay_pos += 1;
-                    chosen = choices.iter().find(|c| c.thread == want.thread && c.start == want.start).cloned();
+            if choices.is_empty() {
+                if blocked.is_empty() {
+                    break;
                 }
-                chosen.unwrap_or_else(|| choices[0].clone())
-            }
-            None => {
-                // bias: 1 in 3 keep running the same thread if possible (long stretches), else uniform
-                let same: Vec<&SchedEntry> = choices.iter().filter(|c| Some(c.thread) == last_thread).collect();
-                if !same.is_empty() && rng.below(3) == 0 {
-                    (*rng.pick(&same)).clone()
-                } else {
-                    rng.pick(&choices).clone()
+                // only blocked threads remain: wait for one of them to come back
+                match ev_rx.recv_timeout(BLOCK_TIMEOUT) {
+                    Ok(ev) => {
+                        let t = match &ev {
+                            Event::Done { thread, .. } | Event::Yielded { thread, .. } => *thread,
+                        };
+                        blocked.remove(&t);
+                        match ev {
+                            Event::Done { thread, job, step, outcome } => {
+                                if outcome == Outcome::Panicked {
+                                    panics += 1;
+                                }
+                                outcomes[job][step] = outcome;
+                                tstate[thread] = TState::Idle;
+                            }
+                            Event::Yielded { thread, .. } => {
+                                yields_seen += 1;
+                                tstate[thread] = TState::Yielded;
+                            }
+                        }
+                        continue;
+                    }
+                    Err(_) => {
+                        deadlock = true;
+                        break;
+                    }
                 }
             }
-        };
-        if last_thread.is_some() && last_thread != Some(pick.thread) && tstate.iter().any(|s| *s == TState::Yielded) {
-            yield_switches += 1;
-        }
-        last_thread = Some(pick.thread);
-        schedule.push(pick.clone());
-        match pick.start {
-            Some((job, step)) => {
-                next_step[job] = step + 1;
-                let _ = cmd_tx[pick.thread].send(Cmd::Step { job, step });
-            }
-            None => {
-                let _ = cmd_tx[pick.thread].send(Cmd::Resume);
-            }
-        }
-        // wait for that thread's next event (nobody else can run)
-        match ev_rx.recv() {
-            Ok(Event::Done { job, step, outcome }) => {
-                if outcome == Outcome::Panicked {
-                    panics += 1;
+            let pick = match &plan.schedule {
+                Some(s) => {
+                    // follow the recorded schedule as long as it is applicable, then fall back to first choice
+                    let mut chosen = None;
+                    while replay_pos < s.len() && chosen.is_none() {
+                        let want = &s[replay_pos];
+                        replay_pos += 1;
+                        chosen = choices.iter().find(|c| c.thread == want.thread && c.start == want.start).cloned();
+                    }
+                    chosen.unwrap_or_else(|| choices[0].clone())
                 }
-                outcomes[job][step] = outcome;
-                tstate[pick.thread] = TState::Idle;
+                None => {
+                    // bias: 1 in 3 keep running the same thread if possible (long stretches), else uniform
+                    let same: Vec<&SchedEntry> = choices.iter().filter(|c| Some(c.thread) == last_thread).collect();
+                    if !same.is_empty() && rng.below(3) == 0 {
+                        (*rng.pick(&same)).clone()
+                    } else {
+                        rng.pick(&choices).clone()
+                    }
+                }
+            };
+            if last_thread.is_some() && last_thread != Some(pick.thread) && tstate.iter().any(|s| *s == TState::Yielded) {
+                yield_switches += 1;
             }
-            Ok(Event::Yielded(_site)) => {
-                yields_seen += 1;
-                tstate[pick.thread] = TState::Yielded;
+            last_thread = Some(pick.thread);
+            schedule.push(pick.clone());
+            match pick.start {
+                Some((job, step)) => {
+                    next_step[job] = step + 1;
+                    let _ = cmd_tx[pick.thread].send(Cmd::Step { job, step });
+                }
+                None => {
+                    let _ = cmd_tx[pick.thread].send(Cmd::Resume);
+                }
             }
-            Err(_) => break,
+            tstate[pick.thread] = TState::Busy;
+            running = Some(pick.thread);
         }
+        // wait for the baton to come back (nobody else can run, unless a blocked thread wakes up)
+        match ev_rx.recv_timeout(BLOCK_TIMEOUT) {
+            Ok(ev) => {
+                let t = match &ev {
+                    Event::Done { thread, .. } | Event::Yielded { thread, .. } => *thread,
+                };
+                blocked.remove(&t);
+                if running == Some(t) {
+                    running = None;
+                }
+                match ev {
+                    Event::Done { thread, job, step, outcome } => {
+                        if outcome == Outcome::Panicked {
+                            panics += 1;
+                        }
+                        outcomes[job][step] = outcome;
+                        tstate[thread] = TState::Idle;
+                    }
+                    Event::Yielded { thread, .. } => {
+                        yields_seen += 1;
+                        tstate[thread] = TState::Yielded;
+                    }
+                }
+            }
+            Err(std::sync::mpsc::RecvTimeoutError::Timeout) => {
+                if let Some(t) = running.take() {
+                    // silent for too long: blocked on something a parked thread holds
+                    blocked.insert(t);
+                    blocked_seen += 1;
+                }
+            }
+            Err(std::sync::mpsc::RecvTimeoutError::Disconnected) => break,
+        }
+    }
+    if deadlock {
+        // threads of this run can never be joined: the worker process must end after reporting
+        return RunTrace { blocked_seen, deadlock, outcomes, schedule, yield_switches, yields_seen, panics };
     }
     for tx in &cmd_tx {
         let _ = tx.send(Cmd::Quit);
@@ -516,7 +596,7 @@ pub fn run_plan(plan: &RunPlan, rng: &mut Rng, ctl: Option<&ShimCtl>, scratch: &
     // reach canary for the hash seam: probe map order in a fresh incarnation after the run
     let h = std::thread::spawn(probe_order).join().unwrap_or(0);
     probes.insert(h);
-    RunTrace { outcomes, schedule, yield_switches, yields_seen, panics }
+    RunTrace { blocked_seen, deadlock, outcomes, schedule, yield_switches, yields_seen, panics }
 }
 
 // ---------------------------------------------------------------- drawing a run
@@ -637,6 +717,13 @@ pub struct LViolation {
 /// I1 over all steps. Diagnostics text of rejected sources is outside the property's
 /// quantifier ("accepted descriptions"): for those only the verdict class is compared.
 fn compare(plan: &RunPlan, trace: &RunTrace, refs: &[std::sync::Arc<Vec<Outcome>>], canary_diag: &mut u64) -> Option<LViolation> {
+    if trace.deadlock {
+        return Some(LViolation {
+            job: 0,
+            step: 0,
+            detail: "no thread can make progress any more: every runnable compilation is blocked on a lock of the code under test (all parked lock holders were resumed first) — the compilations of this history never complete".into(),
+        });
+    }
     for (ji, job) in plan.jobs.iter().enumerate() {
         for (si, kind) in job.steps.iter().enumerate() {
             let got = &trace.outcomes[ji][si];
@@ -693,6 +780,8 @@ pub struct LRunResult {
     pub nontrivial: bool,
     pub sample: Option<Value>,
     pub canary_diag: u64,
+    pub blocked_seen: u64,
+    pub deadlock: bool,
 }
 
 fn plan_to_json(plan: &RunPlan, schedule: &[SchedEntry]) -> Value {
@@ -856,7 +945,8 @@ fn run_one(env: &mut Env, corpus: &Corpus, seed: u64, run: u64, yields_on: bool)
     let steps: u64 = plan.jobs.iter().map(|j| j.steps.len() as u64).sum();
     let sched_hash = stable_hash(&trace.schedule.iter().map(|e| (e.thread, e.start)).collect::<Vec<_>>());
     let out_hash = stable_hash(&trace.outcomes.iter().map(|js| js.iter().map(|o| match o { Outcome::Ok(s) | Outcome::Rejected(s) => stable_hash(s), Outcome::Panicked => 1, Outcome::Skipped => 2 }).collect::<Vec<_>>()).collect::<Vec<_>>());
-    let digest = stable_hash(&(run, sched_hash, out_hash, v.as_ref().map(|x| x.detail.clone())));
+    // a run in which a thread really blocked is not schedule-exact: keep it out of the determinism proof
+    let digest = if trace.blocked_seen > 0 { stable_hash(&(run, "blocked")) } else { stable_hash(&(run, sched_hash, out_hash, v.as_ref().map(|x| x.detail.clone()))) };
     let shared_db = {
         let mut seen = BTreeSet::new();
         plan.jobs.iter().any(|j| !seen.insert((j.thread, j.db_group)))
@@ -885,6 +975,8 @@ fn run_one(env: &mut Env, corpus: &Corpus, seed: u64, run: u64, yields_on: bool)
         nontrivial: multi_decl && plan.jobs.len() >= 2,
         sample,
         canary_diag: canary,
+        blocked_seen: trace.blocked_seen,
+        deadlock: trace.deadlock,
         violation: v.map(|x| (x, plan, trace)),
     }
 }
@@ -964,14 +1056,15 @@ pub fn worker_main(args: &[String]) -> i32 {
         let mut line = json!({
             "run": i, "digest": r.digest.to_string(), "steps": r.steps, "jobs": r.jobs, "threads": r.threads,
             "yield_switches": r.yield_switches, "yields_seen": r.yields_seen, "panics": r.panics, "shared_db": r.shared_db, "preload": r.preload,
-            "sched_hash": r.sched_hash.to_string(), "nontrivial": r.nontrivial, "canary_diag": r.canary_diag,
+            "sched_hash": r.sched_hash.to_string(), "nontrivial": r.nontrivial, "canary_diag": r.canary_diag, "blocked_seen": r.blocked_seen,
         });
+        let deadlocked = r.deadlock;
         if let Some(s) = r.sample {
             line["sample"] = s;
         }
         if let Some((v, plan, trace)) = r.violation {
             nviol += 1;
-            if nviol <= 3 {
+            if nviol <= 3 && !deadlocked {
                 let (mp, mv, msteps) = minimise(&mut env, &plan, &trace, &v);
                 let sched = mp.schedule.clone().unwrap_or_default();
                 line["violation"] = json!({
@@ -988,6 +1081,10 @@ pub fn worker_main(args: &[String]) -> i32 {
         }
         lines.push(line.to_string());
         i += stride;
+        if deadlocked {
+            // the threads of that run can never be joined: report what we have and end this worker
+            break;
+        }
     }
     let counters = ctl.as_ref().map(|c| unsafe { ((c.counter)(0), (c.counter)(1)) }).unwrap_or((0, 0));
     lines.push(json!({"summary": true, "probe_orders": env.probes.iter().map(|p| p.to_string()).collect::<Vec<_>>(), "getrandom_calls": counters.0, "clock_reads": counters.1}).to_string());
@@ -995,7 +1092,8 @@ pub fn worker_main(args: &[String]) -> i32 {
     if std::fs::write(&out_path, lines.join("\n") + "\n").is_err() {
         return 2;
     }
-    0
+    // (exit, not return: parked threads of a deadlocked run must not keep the process alive)
+    std::process::exit(0)
 }
 
 // ---------------------------------------------------------------- orchestration (parent side)
@@ -1086,6 +1184,7 @@ pub fn run_tier(paths: &Paths, seed: u64, n: u64, nworkers: usize, selfcheck: u6
     let mut scheds: BTreeSet<String> = BTreeSet::new();
     let (mut steps, mut jobs, mut multi_thread, mut yield_switches, mut yields_seen, mut panics, mut shared, mut preload, mut canary) = (0u64, 0u64, 0u64, 0u64, 0u64, 0u64, 0u64, 0u64, 0u64);
     let mut nontrivial: BTreeSet<String> = BTreeSet::new();
+    let mut blocked_total = 0u64;
     for (run, v) in &records {
         steps += v["steps"].as_u64().unwrap_or(0);
         jobs += v["jobs"].as_u64().unwrap_or(0);
@@ -1096,6 +1195,7 @@ pub fn run_tier(paths: &Paths, seed: u64, n: u64, nworkers: usize, selfcheck: u6
         shared += v["shared_db"].as_bool().unwrap_or(false) as u64;
         preload += v["preload"].as_bool().unwrap_or(false) as u64;
         canary += v["canary_diag"].as_u64().unwrap_or(0);
+        blocked_total += v["blocked_seen"].as_u64().unwrap_or(0);
         let sh = v["sched_hash"].as_str().unwrap_or("").to_string();
         scheds.insert(sh.clone());
         if v["nontrivial"].as_bool().unwrap_or(false) {
@@ -1139,6 +1239,7 @@ pub fn run_tier(paths: &Paths, seed: u64, n: u64, nworkers: usize, selfcheck: u6
         "getrandom_draws": getrandom, "clock_reads": clock_reads,
         "rejected_source_diagnostic_mismatches_canary_not_judged": canary,
         "determinism_selfcheck_runs": sc,
+        "threads_found_blocked_on_a_lock_of_the_code_under_test": blocked_total,
         "yield_hook_enabled": cfg!(feature = "hooks"),
     });
     let _ = std::fs::remove_dir_all(&dir);
